@@ -53,6 +53,9 @@ def main():
     feat = " --features decode" if needs_decode else ""
     if 'cfg(feature = "experimental")' in open(f"{src}/demo.rs").read():
         feat = " --features experimental"
+    for i, a in enumerate(args):
+        if a == "--features":
+            feat = " --features " + args[i + 1]
     needs_hook = "flacenc_verif" in open(f"{src}/demo.rs").read()
     demo_env = "RUSTFLAGS='--cfg flacenc_verif' " if needs_hook else ""
     if needs_hook:
